@@ -21,9 +21,13 @@ What is a value here and what is a fault:
  * four faults are raised *early*, at the instruction that leaves the envelope in which the used-part
    view of the stacks is faithful; Go itself would go on with stale or foreign slots and panic (or
    compute garbage) later: `stackUnderflow` (a `stackPop` below the bottom — Go panics at the next peek or
-   push), `tracktoRange` (`trackto(n)` with `n` above the current depth, negative, or not at a frame
-   boundary), `textposRange` (`textto(v)` of a grouping-stack value outside `[0, len(text)]`),
-   and `unknownOp` for a code word that is negative or ≥ 1024 at the moment it is fetched.
+   push), `tracktoRange` (`trackto(n)` with `n` above the current depth, negative, not at a frame
+   boundary, or 0 — which would drop the frame of the `Lazybranch` at code position 0 that every
+   compiled program keeps at the bottom), `textposRange` (`textto(v)` of a grouping-stack value outside
+   `[0, len(text)]`), and `unknownOp` for a code word that is negative or ≥ 1024 at the moment it is fetched.
+   `capRange` is a real Go panic (a backreference reads a captured interval that is not inside the text)
+   but is classed with these because excluding it needs the capture bounds of C08, which in turn need the
+   marks on the grouping stack to be text positions.
    None of them occurs in a run of a compiled program explored by leg W (the leg would report a
    difference, since Go returns a result there).
  * the capture arrays are `MatchBuilder.Builder` (model of match.go, property C08) with its own in-bounds
@@ -112,7 +116,7 @@ def Env.len (env : Env) : Int := env.text.size
 
 inductive Fault where
   | codeIndex | stringIndex | setIndex | textIndex | trackUnderflow | trackEmpty | capSlot | unknownOp
-  | stackUnderflow | crawlUnderflow | tracktoRange | textposRange
+  | stackUnderflow | crawlUnderflow | tracktoRange | textposRange | capRange
   deriving DecidableEq, Repr, Inhabited
 
 def Fault.name : Fault → String
@@ -120,11 +124,13 @@ def Fault.name : Fault → String
   | .textIndex => "textIndex" | .trackUnderflow => "trackUnderflow" | .trackEmpty => "trackEmpty"
   | .capSlot => "capSlot" | .unknownOp => "unknownOp" | .stackUnderflow => "stackUnderflow"
   | .crawlUnderflow => "crawlUnderflow" | .tracktoRange => "tracktoRange" | .textposRange => "textposRange"
+  | .capRange => "capRange"
 
 /-- the faults excluded by `Prog.wf` and the frame invariant alone (Props/C10 `step_safe`); the others
     depend on the discipline of the grouping stack -/
 def Fault.structural : Fault → Bool
-  | .codeIndex | .stringIndex | .setIndex | .textIndex | .trackUnderflow | .capSlot | .unknownOp => true
+  | .codeIndex | .stringIndex | .setIndex | .textIndex | .trackUnderflow | .trackEmpty | .capSlot
+  | .unknownOp => true
   | _ => false
 
 /-- interpreter state at the top of the loop -/
@@ -285,7 +291,8 @@ def cutFrames (p : Prog) : Nat → Nat → List Int → Option (List Int)
 def trackto (p : Prog) (s : VMState) (newpos : Int) : M VMState :=
   if 0 ≤ newpos ∧ newpos.toNat ≤ s.track.length then
     match cutFrames p s.track.length (s.track.length - newpos.toNat) s.track with
-    | some t => .ok { s with track := t }
+    | some [] => .error .tracktoRange
+    | some (c :: t) => .ok { s with track := c :: t }
     | none => .error .tracktoRange
   else .error .tracktoRange
 
@@ -338,11 +345,14 @@ def runematch (env : Env) (s : VMState) (str : List Nat) : M (Option Int) :=
 
 /-- `r.refmatch(index, len)`; with `ci` both sides go through `unicode.ToLower` -/
 def refmatch (env : Env) (s : VMState) (index len : Int) : M (Option Int) :=
-  if len < 0 then .error .textIndex          -- Go: the loop `for c != 0 { c-- … }` runs off the text
+  if len < 0 then .error .capRange          -- Go: the loop `for c != 0 { c-- … }` runs off the text
   else if forwardchars env s < len then .ok none
   else
     let pos := if s.oper.rtl then s.textpos else s.textpos + len
-    let get : Int → M Nat := fun i => (charAt env i).map (fun x => if s.oper.ci then env.toLower x else x)
+    let get : Int → M Nat := fun i =>
+      match charAt env i with
+      | .ok x => .ok (if s.oper.ci then env.toLower x else x)
+      | .error _ => .error .capRange
     match cmpBack env s.oper.ci get len.toNat (index + len) pos with
     | .error f => .error f
     | .ok false => .ok none
@@ -813,9 +823,18 @@ def matched (s : VMState) : Bool := decide (MatchBuilder.cnt s.cap.m 0 > 0)
 
 /-! ## well-formed programs -/
 
+/-- instruction length in words (must agree with the regenerated `opcodeSize`, see `instrOk`) -/
+def Op.size : Op → Nat
+  | .nothing | .bol | .eol | .boundary | .nonboundary | .ecmaboundary | .nonecmaboundary | .beginning
+  | .start | .endz | .end_ | .nullmark | .setmark | .getmark | .setjump | .backjump | .forejump | .stop
+  | .updatebumpalong => 1
+  | .one | .notone | .multi | .ref | .testref | .goto | .nullcount | .setcount | .lazybranch | .branchmark
+  | .lazybranchmark | .prune | .set => 2
+  | _ => 3
+
 def isBoundaryPos (bs : List Nat) (t : Int) : Bool := decide (0 ≤ t) && bs.contains t.toNat
 
-/-- operands of the instruction at `pc` are in range -/
+/-- operands of the instruction at `pc` that are used as indices or jump targets are in range -/
 def operandsOk (p : Prog) (bs : List Nat) (pc : Nat) (o : Op) : Bool :=
   let a := (p.codes[pc + 1]?).getD 0
   let b := (p.codes[pc + 2]?).getD 0
@@ -830,27 +849,39 @@ def operandsOk (p : Prog) (bs : List Nat) (pc : Nat) (o : Op) : Bool :=
   | .prune => false
   | _ => true
 
-/-- `Prog.wf`: the code array splits into instructions of known opcodes without Back/Back2 bits, every
-    operand that is used as an index is in range, every jump target is an instruction boundary, the
-    program begins with `Lazybranch` and its last instruction is `Stop` -/
+/-- the instruction at boundary `pc`: a known opcode without Back/Back2 bits whose length is the regenerated
+    `opcodeSize`, operands in range, the whole instruction inside the code array, and — unless it is `Stop` —
+    followed by another instruction -/
+def instrOk (p : Prog) (bs : List Nat) (pc : Nat) : Bool :=
+  match fetch p pc with
+  | .error _ => false
+  | .ok w =>
+    match Op.ofNat? w.op with
+    | none => false
+    | some o =>
+      !w.back && !w.back2 && decide (sizeOf? w.op = some o.size) && operandsOk p bs pc o &&
+        decide (pc + o.size ≤ p.codes.size) && (decide (o = .stop) || bs.contains (pc + o.size))
+
+/-- is the instruction at `pc` the opcode `o`? -/
+def isOpAt (p : Prog) (pc : Nat) (o : Op) : Bool :=
+  match fetch p pc with
+  | .ok w => decide (Op.ofNat? w.op = some o)
+  | .error _ => false
+
+/-- `Prog.wf`: the code array splits into instructions (`Prog.boundaries`), every instruction is `instrOk`
+    (known opcode, operands that index the string/set tables or the capture arrays in range, jump targets are
+    instruction boundaries), the program begins with `Lazybranch` whose target is a `Stop`, and the last
+    instruction is `Stop` -/
 def _root_.RegexVerif.Code.Prog.wf (p : Prog) : Bool :=
   match p.boundaries with
   | none => false
   | some bs =>
-    bs.all (fun pc =>
-      match fetch p pc with
-      | .error _ => false
-      | .ok w => !w.back && !w.back2 &&
-        match Op.ofNat? w.op with
-        | none => false
-        | some o => operandsOk p bs pc o) &&
+    bs.all (instrOk p bs) && bs.contains 0 && isOpAt p 0 .lazybranch &&
+    (match p.codes[1]? with
+     | some t => decide (0 ≤ t) && isOpAt p t.toNat .stop
+     | none => false) &&
     (match bs.getLast? with
      | none => false
-     | some l => match fetch p l with
-       | .ok w => decide (Op.ofNat? w.op = some .stop)
-       | .error _ => false) &&
-    (match fetch p 0 with
-     | .ok w => decide (Op.ofNat? w.op = some .lazybranch)
-     | .error _ => false)
+     | some l => isOpAt p l .stop)
 
 end RegexVerif.VM
